@@ -245,6 +245,93 @@ impl Gen {
 	}
 }
 
+/// A coinbase-only block and a 1-input 1-output transaction that pass full stateless validation (`Block::validate`,
+/// `Transaction::validate`): real commitments, range proofs and kernel signatures, made with fixed signing nonces so
+/// that every process regenerates the same bytes.
+fn valid_crypto(g: &mut Gen) -> Option<(Block, Transaction)> {
+	use grin_core::libtx::{proof, reward, ProofBuilder};
+	use grin_keychain::{ExtKeychain, ExtKeychainPath, Keychain, SwitchCommitmentType};
+	use grin_util::secp::key::SecretKey;
+	let kc = ExtKeychain::from_seed(&g.bytes(32), false).ok()?;
+	let pb = ProofBuilder::new(&kc);
+	let sw = SwitchCommitmentType::Regular;
+	let kid = |n: u32| ExtKeychainPath::new(1, n, 0, 0, 0).to_identifier();
+	let (out, kern) = reward::output(&kc, &pb, &kid(1), 0, true).ok()?;
+	let mut h = g.header(2);
+	h.total_kernel_offset = BlindingFactor::zero();
+	if g.auto {
+		pow::pow_size(&mut h, Difficulty::min_dma(), global::proofsize(), global::min_edge_bits()).ok()?;
+	}
+	let body = TransactionBody::init(Inputs::default(), &[out], &[kern], false).ok()?;
+	let blk = Block { header: h, body };
+	let (vin, vout) = (60_000_000u64, 50_000_000u64);
+	let cin = kc.commit(vin, &kid(2), sw).ok()?;
+	let cout = kc.commit(vout, &kid(3), sw).ok()?;
+	let rp = proof::create(&kc, &pb, vout, &kid(3), sw, cout, None).ok()?;
+	let sk_in = kc.derive_key(vin, &kid(2), sw).ok()?;
+	let sk_out = kc.derive_key(vout, &kid(3), sw).ok()?;
+	let secp = kc.secp();
+	let excess_key = secp.blind_sum(vec![sk_out], vec![sk_in]).ok()?;
+	let features = KernelFeatures::Plain {
+		fee: FeeFields::new(0, vin - vout).ok()?,
+	};
+	let msg = features.kernel_sig_msg().ok()?;
+	let excess = secp.commit(0, excess_key.clone()).ok()?;
+	let pubkey = excess.to_pubkey(secp).ok()?;
+	let nonce = SecretKey::from_slice(secp, &[2u8; 32]).ok()?;
+	let sig = grin_util::secp::aggsig::sign_single(secp, &msg, &excess_key, Some(&nonce), None, None, Some(&pubkey), None).ok()?;
+	let kernel = TxKernel {
+		features,
+		excess,
+		excess_sig: sig,
+	};
+	let inputs = [Input::new(OutputFeatures::Plain, cin)];
+	let body = TransactionBody::init(Inputs::from(&inputs[..]), &[Output::new(OutputFeatures::Plain, cout, rp)], &[kernel], false).ok()?;
+	let tx = Transaction {
+		offset: BlindingFactor::zero(),
+		body,
+	};
+	Some((blk, tx))
+}
+
+/// value tokens of a JSON text: strings that are not object keys (quotes included) and numbers / true / false / null
+fn json_value_fields(t: &str) -> Vec<Field> {
+	let b = t.as_bytes();
+	let mut out = vec![];
+	let mut i = 0;
+	while i < b.len() {
+		match b[i] {
+			b'"' => {
+				let start = i;
+				i += 1;
+				while i < b.len() && b[i] != b'"' {
+					if b[i] == b'\\' {
+						i += 1;
+					}
+					i += 1;
+				}
+				i += 1; // closing quote
+				let mut j = i;
+				while j < b.len() && (b[j] == b' ' || b[j] == b'\n') {
+					j += 1;
+				}
+				if !(j < b.len() && b[j] == b':') {
+					out.push(Field { off: start, w: i.min(b.len()) - start, kind: "js" });
+				}
+			}
+			c if c == b'-' || c.is_ascii_digit() || c == b't' || c == b'f' || c == b'n' => {
+				let start = i;
+				while i < b.len() && !matches!(b[i], b',' | b'}' | b']' | b' ' | b'\n') {
+					i += 1;
+				}
+				out.push(Field { off: start, w: i - start, kind: "jn" });
+			}
+			_ => i += 1,
+		}
+	}
+	out
+}
+
 fn segproof(g: &mut Gen, n: usize) -> SegmentProof {
 	let mut bytes = (n as u64).to_be_bytes().to_vec();
 	for _ in 0..n {
@@ -254,7 +341,7 @@ fn segproof(g: &mut Gen, n: usize) -> SegmentProof {
 }
 
 /// a real MMR of n elements and the segments cut from it, with the true root
-fn mmr_segments<T, F>(g: &mut Gen, n: u64, mk: F, ids: &[(u8, u64, bool)]) -> (Vec<(Segment<T::E>, u64, bool, Hash)>, MerkleProof, u64)
+fn mmr_segments<T, F>(g: &mut Gen, n: u64, mk: F, ids: &[(u8, u64, bool)]) -> (Vec<(Segment<T::E>, u64, bool, Hash)>, MerkleProof, u64, Hash, Vec<u8>)
 where
 	T: PMMRable + PMMRIndexHashable,
 	T::E: Readable + Writeable + std::fmt::Debug,
@@ -278,7 +365,8 @@ where
 		out.push((s, size, *prunable, root));
 	}
 	let mp = ro.merkle_proof(pmmr::insertion_to_pmmr_index(n / 2)).expect("merkle proof");
-	(out, mp, size)
+	let elem = be.data.as_ref().map(|d| ser::ser_vec(&d[(n / 2) as usize], ProtocolVersion(1)).expect("element")).unwrap_or_default();
+	(out, mp, size, root, elem)
 }
 
 fn ctx_of(root: Hash, other: Hash) -> Option<Vec<u8>> {
@@ -358,6 +446,16 @@ pub fn build(seed: u64, auto: bool) -> Vec<SeedEnc> {
 		g.add("UntrustedCompactBlock::read", &l, &cb, 0, None, true);
 		blocks.push(blk);
 	}
+	// ---- fully valid block and transaction (chain type auto only: two range proofs cost ~0.1 s per process)
+	let valid = if auto { valid_crypto(&mut g) } else { None };
+	if let Some((blk, tx)) = &valid {
+		g.add("Block::read", "validblock", blk, 0, None, true);
+		g.add("UntrustedBlock::read", "validblock", blk, 0, None, true);
+		let cb: CompactBlock = blk.clone().into();
+		g.add("CompactBlock::read", "validblock", &cb, 0, None, true);
+		g.add("UntrustedCompactBlock::read", "validblock", &cb, 0, None, true);
+		g.add("Transaction::read", "validtx", tx, 0, None, true);
+	}
 	// ---- Merkle proofs, segments
 	for n in [0usize, 1, 3].iter() {
 		let mp = MerkleProof {
@@ -376,8 +474,25 @@ pub fn build(seed: u64, auto: bool) -> Vec<SeedEnc> {
 	let other = g.hash();
 	let block_hash = g.hash();
 	{
-		let (segs, mp, _) = mmr_segments::<OutputIdentifier, _>(&mut g, 11, |g, k| g.outid(k), &ids);
-		g.add("MerkleProof::read", "real", &mp, 0, None, false);
+		let (segs, mp, _, mroot, elem) = mmr_segments::<OutputIdentifier, _>(&mut g, 11, |g, k| g.outid(k), &ids);
+		// check parameters of a proof that verifies: position of the proven leaf, root || (unused) || the element
+		let mut mctx = mroot.to_vec();
+		mctx.extend_from_slice(&other.to_vec());
+		mctx.extend_from_slice(&elem);
+		g.add("MerkleProof::read", "real", &mp, pmmr::insertion_to_pmmr_index(11 / 2), Some(mctx.clone()), true);
+		g.out.push(SeedEnc {
+			target: "MerkleProof::from_hex",
+			label: "realhex".into(),
+			ver: 1000,
+			bytes: mp.to_hex().into_bytes(),
+			fields: vec![Field { off: 0, w: 16, kind: "b" }, Field { off: 16, w: 16, kind: "b" }, Field { off: 32, w: 64, kind: "b" }],
+			aux: pmmr::insertion_to_pmmr_index(11 / 2),
+			ctx: Some(mctx),
+			expect_ok: true,
+			expect_post: true,
+			ident: None,
+			proof: None,
+		});
 		for (s, size, pr, root) in segs {
 			let l = format!("h{}i{}{}", s.id().height, s.id().idx, if pr { "p" } else { "" });
 			let aux = aux_explicit(size, pr);
@@ -391,7 +506,7 @@ pub fn build(seed: u64, auto: bool) -> Vec<SeedEnc> {
 		}
 	}
 	{
-		let (segs, _, _) = mmr_segments::<RangeProof, _>(&mut g, 7, |g, _| g.proof(), &[(1, 0, false), (2, 1, true)]);
+		let (segs, _, _, _, _) = mmr_segments::<RangeProof, _>(&mut g, 7, |g, _| g.proof(), &[(1, 0, false), (2, 1, true)]);
 		for (s, size, pr, root) in segs {
 			let l = format!("h{}i{}{}", s.id().height, s.id().idx, if pr { "p" } else { "" });
 			let aux = aux_explicit(size, pr);
@@ -402,7 +517,7 @@ pub fn build(seed: u64, auto: bool) -> Vec<SeedEnc> {
 		}
 	}
 	{
-		let (segs, _, _) = mmr_segments::<TxKernel, _>(&mut g, 9, |g, k| g.kernel(k), &[(2, 1, false), (3, 1, false), (1, 0, false)]);
+		let (segs, _, _, _, _) = mmr_segments::<TxKernel, _>(&mut g, 9, |g, k| g.kernel(k), &[(2, 1, false), (3, 1, false), (1, 0, false)]);
 		for (s, size, _, root) in segs {
 			let l = format!("h{}i{}", s.id().height, s.id().idx);
 			let aux = aux_explicit(size, false);
@@ -556,7 +671,10 @@ pub fn build(seed: u64, auto: bool) -> Vec<SeedEnc> {
 		});
 	}
 	// hex arguments of the API handlers: a commitment, a hash, a transaction (pool push, protocol version 1)
-	let api_tx = g.tx(2, 1, 2);
+	let api_tx = match &valid {
+		Some((_, tx)) => tx.clone(),
+		None => g.tx(2, 1, 2),
+	};
 	let api_tx_hex = encode(&api_tx, 1).map(|(b, f)| (crate::worker::hex(&b), f));
 	let commit_hex = crate::worker::hex(&g.commit().0);
 	let hash_hex = g.hash().to_hex();
@@ -570,6 +688,10 @@ pub fn build(seed: u64, auto: bool) -> Vec<SeedEnc> {
 		let hf: Vec<Field> = f.iter().map(|x| Field { off: 2 * x.off, w: 2 * x.w, kind: "b" }).collect();
 		strs.push(("api::push_tx_hex", "tx", h, hf, true));
 	}
+	// JSON-RPC parameter of foreign push_transaction: one field per JSON value token (string with its quotes: "js",
+	// number / literal: "jn"); object keys are left alone
+	let json_tx = serde_json::to_string(&api_tx).expect("tx json");
+	strs.push(("json::Transaction", "txjson", json_tx.clone(), json_value_fields(&json_tx), true));
 	for (t, l, text, fields, ok) in strs {
 		g.out.push(SeedEnc {
 			target: t,
@@ -619,6 +741,12 @@ pub fn build(seed: u64, auto: bool) -> Vec<SeedEnc> {
 	fr!("headers0", Type::Headers, &Headers { headers: vec![] });
 	fr!("getblock", Type::GetBlock, &genesis);
 	fr!("block", Type::Block, &blocks[1]);
+	if let Some((blk, vtx)) = &valid {
+		fr!("validblock", Type::Block, blk);
+		fr!("validtx", Type::Transaction, vtx);
+		let vcb: CompactBlock = blk.clone().into();
+		fr!("validcompactblock", Type::CompactBlock, &vcb);
+	}
 	fr!("getcompactblock", Type::GetCompactBlock, &genesis);
 	fr!("compactblock", Type::CompactBlock, &cb);
 	fr!("stemtx", Type::StemTransaction, &tx);
